@@ -82,6 +82,7 @@ var c07Sources = []filesCase{
 	{Root: "s9.sysl", Files: map[string]string{"s9.sysl": "Shop ]]:\n    Ep [a=[\"x\"]]]:\n        ...\n"}},
 	{Root: "s10.sysl", Files: map[string]string{"s10.sysl": "Some App:\n    !type T:\n        id <: int\n        s <: string\n        d <: datetime\n    Ep (p <: int):\n        | text line [x]\n        return ok <: string\n"}},
 	{Root: "s11.sysl", Files: map[string]string{"s11.sysl": "import i1\nimport i2\nimport i3\nimport i4\nRoot:\n    Ep:\n        I1 <- E\n", "i1.sysl": "I1:\n    E:\n        ...\n", "i2.sysl": "I2:\n    E:\n        ...\n", "i3.sysl": "I3:\n    E:\n        ...\n", "i4.sysl": "I4:\n    E:\n        ...\n"}},
+	{Root: "s12.sysl", Files: map[string]string{"s12.sysl": "import api.yaml as Ping\nUser:\n    Ep:\n        Ping <- GET /ping\n", "api.yaml": "swagger: \"2.0\"\ninfo:\n  title: Ping\n  version: \"1\"\nproduces:\n  - text/plain\npaths:\n  /ping:\n    get:\n      responses:\n        200:\n          description: ok\n          schema:\n            type: string\n  /pong:\n    get:\n      responses:\n        200:\n          description: ok\n          schema:\n            type: object\n            properties:\n              v:\n                type: string\n"}},
 }
 
 // c07Core: the sources that take part in every combination (s0..s6 by file name)
